@@ -5,7 +5,7 @@ from .state import State, Unsupported, Ev
 from .spec import SpecError
 from .ir import short, MOD
 
-TRACE_BUILTINS = {"never", "count", "any", "all", "seq", "before", "untouched", "ret", "arg", "called", "last",
+TRACE_BUILTINS = {"notafter", "never", "count", "any", "all", "seq", "before", "untouched", "ret", "arg", "called", "last",
                   "calls", "only", "first", "spawned", "nth", "after_all"}
 
 
@@ -59,6 +59,8 @@ class SpecCtx:
     def tag(self, v, t):
         if is_z3(v) and t:
             self.leaf_types[v.get_id()] = t
+        elif isinstance(v, IfaceV) and t:
+            self.leaf_types[("i", v.ref.get_id())] = t
         return v
 
     # ------------------------------------------------------------------
@@ -80,10 +82,17 @@ class SpecCtx:
         if k == "dollar":
             n = a[1]
             if self.cur_ev is not None:
+                sg = self.eng.sig_of(self.cur_ev.name)
                 if n.isdigit():
-                    return self.cur_ev.args[int(n)]
+                    v = self.cur_ev.args[int(n)]
+                    if sg and int(n) < len(sg[0]):
+                        self.tag(v, sg[0][int(n)])
+                    return v
                 if n.startswith("r") and n[1:].isdigit():
-                    return self.cur_ev.results[int(n[1:])]
+                    v = self.cur_ev.results[int(n[1:])]
+                    if sg and int(n[1:]) < len(sg[1]):
+                        self.tag(v, sg[1][int(n[1:])])
+                    return v
             if "$" + n in self.names:
                 return self.names["$" + n]
             raise SpecError("unbound $" + n)
@@ -139,6 +148,10 @@ class SpecCtx:
         if k == "assert":
             x = self.eval(a[1])
             T = self.resolve_type(a[2])
+            if self.eng.ir.is_iface(T):
+                v = IfaceV(x.ref, x.dyn)
+                self.leaf_types[("i", x.ref.get_id())] = T
+                return v
             if x.dyn is not None and x.dyn[0] == T:
                 return x.dyn[1]
             return self.eng.unbox(st, x.ref, T)
@@ -162,6 +175,10 @@ class SpecCtx:
         if "." in n:
             al, tn = n.split(".", 1)
             full = ir.alias.get(al, al) + "." + tn
+            if full not in ir.types:
+                for path in ir.dep_alias.get(al, []):
+                    if path + "." + tn in ir.types:
+                        full = path + "." + tn
         else:
             full = (self.pkg or "") + "." + n
             if full not in ir.types:
@@ -270,14 +287,14 @@ class SpecCtx:
             if op == "&&":
                 if z3.is_false(ls):
                     return z3.BoolVal(False)
-                return z3.And(lv, to_bool(self.eval(r)))
+                return z3.And(lv, to_bool(self.eval_under(lv, r)))
             if op == "||":
                 if z3.is_true(ls):
                     return z3.BoolVal(True)
-                return z3.Or(lv, to_bool(self.eval(r)))
+                return z3.Or(lv, to_bool(self.eval_under(z3.Not(lv), r)))
             if z3.is_false(ls):
                 return z3.BoolVal(True)
-            return z3.Implies(lv, to_bool(self.eval(r)))
+            return z3.Implies(lv, to_bool(self.eval_under(lv, r)))
         if op == "<==>":
             sp = self.pol
             self.pol = 0
@@ -301,6 +318,27 @@ class SpecCtx:
         if op == "%":
             return x % y
         return {"<": x < y, "<=": x <= y, ">": x > y, ">=": x >= y}[op]
+
+    def eval_under(self, assumption, a):
+        """evaluate a sub-expression in a context where `assumption` holds (guards of pure calls / ret())"""
+        if self.in_old or z3.is_true(z3.simplify(assumption)):
+            return self.eval(a)
+        pst = self.st
+        s2 = pst.clone()
+        n0 = len(s2.pc)
+        s2.assume(assumption)
+        self.st = s2
+        try:
+            return self.eval(a)
+        finally:
+            # facts learned while evaluating (ranges of UF values, lazily materialised cells, invariants) are unconditional
+            pst.pc.extend(s2.pc[n0 + 1:])
+            for k, v in s2.heap.items():
+                pst.heap.setdefault(k, v)
+            for k, v in s2.symcells.items():
+                pst.symcells.setdefault(k, v)
+            pst.ghost.update({k: v for k, v in s2.ghost.items() if k not in pst.ghost})
+            self.st = pst
 
     def eq(self, x, y):
         st = self.st
@@ -497,10 +535,12 @@ class SpecCtx:
                 fname = ir.method_func(base.dyn[0], mname)
                 if fname and fname in ir.funcs:
                     return self.pure_call(fname, [base.dyn[1]] + avals)
-            name = "m." + mname
-            rtypes = self.eng.method_rtypes(mname)
-            if rtypes is None:
-                raise SpecError("method %s not declared pure in any interface contract" % mname)
+            stt = self.leaf_types.get(("i", base.ref.get_id()))
+            sig = self.eng.ir.iface_method_sig(stt, mname) if stt and self.eng.ir.is_iface(stt) else None
+            pu = self.eng.pure_uf(mname, sig)
+            if pu is None:
+                raise SpecError("method %s is not declared pure (or is ambiguous: static interface type of the receiver unknown)" % mname)
+            name, rtypes = pu
             al = leaves(TupleV(avals)) if avals else []
             vals = [self.tag(st.from_uf(rt, name + ("#%d" % i if len(rtypes) > 1 else ""), [base.ref] + al), rt) for i, rt in enumerate(rtypes)]
             return vals[0] if len(vals) == 1 else TupleV(vals)
@@ -553,6 +593,10 @@ class SpecCtx:
         res = None
         rets = [o for o in outs if o.kind == "ret"]
         if not rets:
+            if not st.feasible():
+                # unreachable context: any value will do
+                return st.from_uf(fn["results"][0]["type"], fresh_name("unreach"), []) if len(fn["results"]) == 1 else \
+                    TupleV([st.from_uf(r["type"], fresh_name("unreach"), []) for r in fn["results"]])
             raise SpecError("pure call %s has no returning path" % short(fname))
         for o in reversed(rets):
             cond = z3.And(*o.st.pc[base_len:]) if len(o.st.pc) > base_len else z3.BoolVal(True)
@@ -666,6 +710,16 @@ class SpecCtx:
                 if match_name(names_b, e.name) and not seen_a:
                     ok = False
             return z3.BoolVal(ok)
+        if n == "notafter":
+            # notafter(A, B): no A entry occurs after a B entry
+            na, nb = self.flat(args[0]), self.flat(args[1])
+            seen_b, ok = False, True
+            for e in self.trace:
+                if match_name(nb, e.name):
+                    seen_b = True
+                elif match_name(na, e.name) and seen_b:
+                    ok = False
+            return z3.BoolVal(ok)
         if n == "last":
             eff = [e for e in self.trace if e.kind != "read"]
             if not eff:
@@ -689,7 +743,13 @@ class SpecCtx:
             if len(evs) <= which:
                 raise SpecError("%s(%s): no such call on this path" % (n, self.flat(args[0])))
             e = evs[which]
-            return e.results[idx] if n == "ret" else e.args[idx]
+            v = e.results[idx] if n == "ret" else e.args[idx]
+            sg = self.eng.sig_of(e.name)
+            if sg is not None:
+                ts = sg[1] if n == "ret" else sg[0]
+                if idx < len(ts):
+                    self.tag(v, ts[idx])
+            return v
         if n == "calls":
             return z3.IntVal(len(self.events(args[0])))
         if n == "spawned":
